@@ -24,13 +24,15 @@ type vOp struct {
 }
 
 type vFS struct {
-	trace   []vOp
-	exists  bool   // the single file exists
-	path    string // its path ("" = any path)
-	content []byte
-	faults  bool
-	nfault  int // faults injected so far
-	nclose  int // of which in Close
+	trace      []vOp
+	exists     bool   // the single file exists
+	path       string // its path ("" = any path)
+	content    []byte
+	faults     bool
+	nfault     int  // faults injected so far
+	nclose     int  // of which in Close
+	shortReads bool // Read may deliver a short count without an error (at most twice)
+	nshort     int
 }
 
 var errInjected = errors.New("injected fault")
@@ -130,6 +132,15 @@ func (v *vFile) Read(p []byte) (int, error) {
 	}
 	if v.pos >= len(v.fs.content) {
 		return 0, io.EOF
+	}
+	// a reader may deliver fewer bytes than asked for without an error (io.Reader contract)
+	if rem := len(v.fs.content) - v.pos; v.fs.shortReads && v.fs.nshort < 2 && len(p) > 1 && rem > 1 && vsym.Bool("short.read") {
+		k := vsym.Int("short.read.n")
+		vsym.Assume(vsym.And(k >= 1, k < len(p), k < rem))
+		v.fs.nshort++
+		copy(p[:k], v.fs.content[v.pos:])
+		v.pos += k
+		return k, nil
 	}
 	n := copy(p, v.fs.content[v.pos:])
 	v.pos += n
